@@ -15,6 +15,8 @@ import traceback
 VERIF = os.path.dirname(os.path.dirname(os.path.abspath(__file__)))
 REPO = os.environ.get("XV_REPO", "/repo")
 BUILD = os.path.join(VERIF, ".build")
+# runs against a scratch worktree (XV_REPO=...) must not overwrite the artefacts / evidence of /repo
+ARTROOT = VERIF if REPO == "/repo" else os.path.join(BUILD, "alt", hashlib.sha256(REPO.encode()).hexdigest()[:10])
 LEVELS = {
     "exploration",
     "fault_enumeration",
@@ -160,7 +162,7 @@ def finish(ctx: Ctx) -> int:
     for key, n in sorted(matched.items()):
         k = known_by_key[key]
         print(f"KNOWN-FINDING: property={ctx.prop} {k['what']} [key={key}; {n} case(s) this run]")
-    outdir = os.path.join(VERIF, "out", ctx.prop)
+    outdir = os.path.join(ARTROOT, "out", ctx.prop)
     if fresh:
         shutil.rmtree(outdir, ignore_errors=True)
         os.makedirs(outdir, exist_ok=True)
@@ -196,12 +198,12 @@ def finish(ctx: Ctx) -> int:
         "known_finding_cases": sum(matched.values()),
         "notes": ctx.notes,
     }
-    os.makedirs(os.path.join(VERIF, "evidence"), exist_ok=True)
-    tmp = os.path.join(VERIF, "evidence", f".{ctx.prop}.json.{os.getpid()}")
+    os.makedirs(os.path.join(ARTROOT, "evidence"), exist_ok=True)
+    tmp = os.path.join(ARTROOT, "evidence", f".{ctx.prop}.json.{os.getpid()}")
     with open(tmp, "w") as f:
         json.dump(ev, f, indent=1, sort_keys=True, default=repr)
         f.write("\n")
-    os.replace(tmp, os.path.join(VERIF, "evidence", f"{ctx.prop}.json"))
+    os.replace(tmp, os.path.join(ARTROOT, "evidence", f"{ctx.prop}.json"))
     summary = {k: v for k, v in cov.items() if isinstance(v, (int, float, bool, str)) and k not in ("rule", "explanation")}
     print(f"[{ctx.prop}] tier={ctx.tier} seed={ctx.seed} wall={ev['wall_s']}s violations={len(seen_keys)} known={len(matched)} coverage={jdump(summary)}")
     return 1 if fresh else 0
